@@ -42,6 +42,9 @@ pub enum Ser {
     /// header line, unterminated; LF and CR LF forms
     FastaWrapNoFinalNl(usize),
     FastaWrapCrlfNoFinalNl(usize),
+    /// FASTQ with sequence and quality wrapped at n (the original format allows it and the pinned reader reads it);
+    /// continuation lines of the quality start with '@' and '+' in turn
+    FastqWrap(usize),
     FastaCrlf,
     FastaNoFinalNl,
     Fastq,
@@ -53,7 +56,7 @@ pub enum Ser {
 
 impl Ser {
     fn is_fastq(self) -> bool {
-        matches!(self, Ser::Fastq | Ser::FastqCrlf | Ser::FastqNoFinalNl | Ser::FastqCrlfNoFinalNl)
+        matches!(self, Ser::Fastq | Ser::FastqCrlf | Ser::FastqNoFinalNl | Ser::FastqCrlfNoFinalNl | Ser::FastqWrap(_))
     }
     fn code(self) -> String {
         match self {
@@ -61,6 +64,7 @@ impl Ser {
             Ser::FastaWrap(n) => format!("fw{}", n),
             Ser::FastaWrapNoFinalNl(n) => format!("fy{}", n),
             Ser::FastaWrapCrlfNoFinalNl(n) => format!("fz{}", n),
+            Ser::FastqWrap(n) => format!("qw{}", n),
             Ser::FastaCrlf => "fc".into(),
             Ser::FastaNoFinalNl => "fn".into(),
             Ser::Fastq => "ql".into(),
@@ -82,6 +86,7 @@ impl Ser {
             "qx" => Ser::FastqCrlfNoFinalNl,
             w if w.starts_with("fy") => Ser::FastaWrapNoFinalNl(w[2..].parse().unwrap()),
             w if w.starts_with("fz") => Ser::FastaWrapCrlfNoFinalNl(w[2..].parse().unwrap()),
+            w if w.starts_with("qw") => Ser::FastqWrap(w[2..].parse().unwrap()),
             w => Ser::FastaWrap(w[2..].parse().unwrap()),
         }
     }
@@ -104,6 +109,19 @@ pub fn serialise(recs: &[Rec], ser: Ser) -> (Vec<u8>, Vec<usize>) {
             Ser::FastaWrap(w) | Ser::FastaWrapNoFinalNl(w) | Ser::FastaWrapCrlfNoFinalNl(w) => {
                 t.extend_from_slice(format!(">{}\n", r.header).as_bytes());
                 for chunk in r.bases.chunks(w) {
+                    t.extend_from_slice(chunk);
+                    t.push(b'\n');
+                }
+            }
+            Ser::FastqWrap(w) => {
+                t.extend_from_slice(format!("@{}\n", r.header).as_bytes());
+                for chunk in r.bases.chunks(w) {
+                    t.extend_from_slice(chunk);
+                    t.push(b'\n');
+                }
+                t.extend_from_slice(b"+\n");
+                let qual: Vec<u8> = (0..r.bases.len()).map(|j| if j % w == 0 { [b'@', b'+', b'I'][(j / w + i) % 3] } else { b'!' + ((i + j) % 60) as u8 }).collect();
+                for chunk in qual.chunks(w) {
                     t.extend_from_slice(chunk);
                     t.push(b'\n');
                 }
@@ -176,7 +194,10 @@ fn c06_read(ctx: &mut Ctx, recs: &[Rec], ser: Ser, container: &str, bytes: &[u8]
     } else {
         ctx.scratch.clone()
     };
-    let path = format!("{}/c06{}{}", dir, suffix, if gz { ".gz" } else { "" });
+    // the stem of every third file name holds extension-like components of the other format and of the other
+    // compression ("sample.fq.contigs.fa"): only the suffix decides
+    let stem = if case_no % 3 == 1 { if ser.is_fastq() { "c06.fa.gz.trimmed" } else { "c06.fastq.gz.contigs" } } else { "c06" };
+    let path = format!("{}/{}{}{}", dir, stem, suffix, if gz { ".gz" } else { "" });
     let _ = std::fs::remove_file(&path);
     if case_no % 7 == 3 {
         // the name is a symbolic link to the file, which lives under another (suffix-less) name
@@ -468,7 +489,7 @@ fn long_bases(len: usize, salt: usize) -> Vec<u8> {
 pub fn c06(ctx: &mut Ctx) {
     let lists = rec_lists(ctx.pick(3, 4));
     let fasta_sers = [Ser::FastaLine, Ser::FastaWrap(1), Ser::FastaWrap(2), Ser::FastaWrap(3), Ser::FastaCrlf, Ser::FastaNoFinalNl, Ser::FastaCrlfNoFinalNl, Ser::FastaWrapNoFinalNl(2), Ser::FastaWrapCrlfNoFinalNl(3)];
-    let fastq_sers = [Ser::Fastq, Ser::FastqCrlf, Ser::FastqNoFinalNl, Ser::FastqCrlfNoFinalNl];
+    let fastq_sers = [Ser::Fastq, Ser::FastqCrlf, Ser::FastqNoFinalNl, Ser::FastqCrlfNoFinalNl, Ser::FastqWrap(2), Ser::FastqWrap(3)];
     let mut sh = ctx.shard;
     let mut case_no = 0u64;
     let mut n_lists = 0u64;
@@ -921,8 +942,19 @@ pub fn c07_configs(ctx: &mut Ctx) {
         big.push((vec![crate::iters::long_input(250_017, 32), b"ACGT".to_vec()], 21));
         big.push((vec![fill(b"A", 300_000)], 11));
     }
+    if !ctx.monitor() {
+        for k in [7usize, 11, 21, 31] {
+            big.push((crate::iters::medium_inputs(400), k));
+        }
+    }
     big.push((crate::vecs::repeating_records(), 4));
     big.push((crate::vecs::repeating_records(), 10));
+    // equal records 2^8 and 2^16 apart (one less, one more) with nothing related in between
+    if !ctx.monitor() {
+        for gap in [254usize, 255, 256, 65_534, 65_535, 65_536] {
+            big.push((crate::vecs::bookends(gap), 11));
+        }
+    }
     big.push(((0..3000usize).map(|i| long_bases(2 + i % 11, i)).collect(), 3));
     for (recs, k) in &big {
         // ceilings are scaled to the input so that the chunk x partition grid stays in the hundreds of files
@@ -1347,6 +1379,8 @@ pub fn c08(ctx: &mut Ctx) {
         for len in [99_999usize, 100_000, 100_001, 1_000_000] {
             specials.push(crate::iters::long_input(len, len as u64));
         }
+        // more than 2^24 bases in one record
+        specials.push(crate::iters::long_input((1 << 24) + 4321, 99));
         for s in &specials {
             if sh.mine() {
                 let table = synthetic_table(3, 2, 5);
@@ -1455,6 +1489,8 @@ pub fn c08(ctx: &mut Ctx) {
         ("only-empty", vec![b"".to_vec()]),
         ("all-N", vec![b"NNN".to_vec(), b"N".to_vec()]),
         ("repeating", crate::vecs::repeating_records()),
+        ("reads", crate::iters::medium_inputs(200)),
+        ("odd-then-same-256", crate::vecs::odd_then_same(256)),
     ];
     let mut n = 0u64;
     for (_tag, recs) in &sets {
